@@ -111,26 +111,26 @@ CHECKS = {
 
 # families added in the second build session (DESIGN.md 13.2); appended to the level note of each check
 LATER = {
-    "C01": "atoms incl. negative numbers, complex values with negative zeros, classes nested in classes",
-    "C02": "subclass instances against base-class constructor calls; previous argument spelled through a lambda call / builtin constructors",
-    "C03": "already-imported names in unusual places; UTF-8 BOM and latin-1 / cp1252 coding cookies; ASCII-locale cold sessions; five failing format-command modes",
-    "C04": "skip-snapshot-updates-for-now",
-    "C05": "bounds over a partial order (sets by inclusion)",
-    "C06": "real-session differential (no flags / report vs. disable) over re-evaluated call sites with inner snapshots / Is() in defaulted fields",
-    "C07": "comparisons in other threads, sites without source, nested in-process sessions",
-    "C08": "every atom of the value universe in the quick tier; lambda / constructor spellings",
-    "C09": "namedtuple / attrs call shapes, four-slot calls, deleted elements holding several updates",
-    "C10": "hand-written layouts: parenthesised user-controlled parts, f-strings vs. str subclasses",
-    "C11": "parenthesised element expressions",
-    "C12": "strings built from runs of 1-6 quote characters around line ends",
-    "C13": "fixed histories with invariant oracles: one content under several suffixes, relative storage-dir from different working directories",
-    "C14": "arguments modified in place between evaluations, several handles of one sub-snapshot key, twin values across call sites",
-    "C15": "trim mode with referenced / unreferenced persisted externals; ASCII-locale write step; read boundary follows tokenize.open",
-    "C16": "existing dict snapshots against every insertion order of the observed dict",
-    "C17": "hashable-but-mutable values, bytearray, nested tuples; non-copyable value under a new key of an existing sub-snapshot",
-    "C18": "snapshots evaluated without source; non-ASCII lines with sibling edits",
-    "C19": "generated projects (all C09 slot programs) through run_inline and the real session",
-    "C20": "black failing for one file of three; monorepo with a metadata-only pyproject.toml",
+    "C01": "atoms incl. negative numbers, complex values with negative zeros, classes nested in classes; several test files in one real session (which file needs an added import); empty containers under keys",
+    "C02": "subclass instances against base-class constructor calls; previous argument spelled through a lambda call / builtin constructors; nested snapshots behind a wrong element; a first test whose new value has a raising __repr__ before tests that look at repr()",
+    "C03": "already-imported names in unusual places; UTF-8 BOM and latin-1 / cp1252 coding cookies; ASCII-locale cold sessions; five failing format-command modes; values not encodable in a single-byte source encoding; test file reached through a symbolic link; callee spellings with attribute access / parentheses",
+    "C04": "skip-snapshot-updates-for-now; several xfail marks on one test (stacked, inherited + own); the values CI systems really put into their variables; late imports",
+    "C05": "bounds over a partial order (sets by inclusion); constructor calls in keyword / positional spelling; values whose == is not symmetric with their HasRepr stand-in",
+    "C06": "real-session differential (no flags / report vs. disable) over re-evaluated call sites with inner snapshots / Is() in defaulted fields; star containers at depth 0-2 re-evaluated",
+    "C07": "comparisons in other threads, sites without source, nested in-process sessions; one call site shared by tests over every short value sequence; session histories with the bytecode cache on (owned clock)",
+    "C08": "every atom of the value universe in the quick tier; lambda / constructor spellings; double sessions over import shapes; objects modified after the comparison; bytecode-cache history",
+    "C09": "namedtuple / attrs call shapes, four-slot calls, deleted elements holding several updates; multi-file projects through the real plugin; several sites on one line behind non-ASCII text; equal values of different types under two keys",
+    "C10": "hand-written layouts: parenthesised user-controlled parts, f-strings vs. str subclasses; star containers re-evaluated; bounds / members holding Is()",
+    "C11": "parenthesised element expressions; odd line separators above the call; one class name bound to different kinds of classes per site (strict batches); defaultdict displays",
+    "C12": "strings built from runs of 1-6 quote characters around line ends; fix between strings that differ only in quote kinds / backslashes",
+    "C13": "fixed histories with invariant oracles: one content under several suffixes, relative storage-dir from different working directories; edge suffixes; import-shape histories (re-export, alias, star, try, tidied import); references written under one hash-length and trimmed under another; colliding prefixes",
+    "C14": "arguments modified in place between evaluations, several handles of one sub-snapshot key, twin values across call sites; one textual call duplicated in the bytecode (finally blocks)",
+    "C15": "trim mode with referenced / unreferenced persisted externals; ASCII-locale write step; read boundary follows tokenize.open; unencodable values (file keeps its old bytes); formatter answering a fragment with other valid code",
+    "C16": "existing dict snapshots against every insertion order of the observed dict; tuple-wrapped frozensets, dict subclasses, defaultdict snapshots in every insertion order; at most 3000 sites per cold process",
+    "C17": "hashable-but-mutable values, bytearray, nested tuples; non-copyable value under a new key of an existing sub-snapshot; members tested again after the object changed (trim), a value owning a lock",
+    "C18": "snapshots evaluated without source; non-ASCII lines with sibling edits; sessions started outside the project directory; the same data outsourced at several sites / files; star-expressions in never-compared snapshots",
+    "C19": "generated projects (all C09 slot programs) through run_inline and the real session; pytest.ini dist options; the second real session in one directory (bytecode cache on) against the helpers",
+    "C20": "black failing for one file of three; monorepo with a metadata-only pyproject.toml; format-command relative to the start directory",
 }
 
 NOT_APPLICABLE = {
@@ -149,7 +149,7 @@ def main():
             "replay_cmd_template": "cd /verif && /venv/bin/python -m mc.replay {path}",
             "engine": "mc",
             "level_claimed": {"category": cat, "text": text, "design_ref": ref},
-            "level_note": note + (" Added later (DESIGN.md 13.2): " + LATER[pid] + "." if pid in LATER else ""),
+            "level_note": note + (" Added later (DESIGN.md 13.2, 13.7, 13.8): " + LATER[pid] + "." if pid in LATER else ""),
             "technique": tech,
         })
     na = []
